@@ -43,7 +43,7 @@ Lemma finished_stable lvl c s e s' x : wf c = true -> Inv1 c s -> step lvl c s e
 Proof.
   intros W I Hs Hf.
   destruct (J_effect lvl c s e s' W (i_pend c s I) Hs x)
-    as [H|H1 H2|HS H1 H2 H3 H4|H1 H2 H3 H4 H5 H6|H1 H2 H3 H4 H5|HS H1 H2 H3 H4 H5|HS H1 H2 H3 H4 H5|HS H1 H2 H3 H4 H5|HS H1 H2 H3 H4 H5 H6|HS H1 H2|HS H1 H2 H3];
+    as [H|H1 H2|HS H1 H2 H3 H4|H1 H2 H3 H4 H5 H6 H7|H1 H2 H3 H4 H5 H6|HS H1 H2 H3 H4 H5|HS H1 H2 H3 H4 H5|HS H1 H2 H3 H4 H5|HS H1 H2 H3 H4 H5 H6|HS H1 H2|HS H1 H2 H3];
     try (rewrite H1 in Hf; discriminate).
   - exact H.
   - rewrite H1. apply cancel_j_finished. exact Hf.
@@ -82,7 +82,7 @@ Proof.
     pose proof (i_idle c s I n x Hm Hph0) as Hx.
     pose proof (proj1 (In_members c n x) Hm) as (_ & Hpar & _).
     destruct (HJ x)
-      as [H|H1 H2|HS H1 H2 H3 H4|H1 H2 H3 H4 H5 H6|H1 H2 H3 H4 H5|HS H1 H2 H3 H4 H5|HS H1 H2 H3 H4 H5|HS H1 H2 H3 H4 H5|HS H1 H2 H3 H4 H5 H6|HS H1 H2|HS H1 H2 H3];
+      as [H|H1 H2|HS H1 H2 H3 H4|H1 H2 H3 H4 H5 H6 H7|H1 H2 H3 H4 H5 H6|HS H1 H2 H3 H4 H5|HS H1 H2 H3 H4 H5|HS H1 H2 H3 H4 H5|HS H1 H2 H3 H4 H5 H6|HS H1 H2|HS H1 H2 H3];
       try (rewrite H1 in Hx; discriminate).
     + rewrite H. exact Hx.
     + rewrite H1, cancel_j_st. exact Hx.
@@ -93,7 +93,7 @@ Proof.
     intros n Hn0 Hst.
     assert (Hst0 : st (Jb s n) = Idle \/ st (Jb s n) = Created).
     { destruct (HJ n)
-        as [H|H1 H2|HS H1 H2 H3 H4|H1 H2 H3 H4 H5 H6|H1 H2 H3 H4 H5|HS H1 H2 H3 H4 H5|HS H1 H2 H3 H4 H5|HS H1 H2 H3 H4 H5|HS H1 H2 H3 H4 H5 H6|HS H1 H2|HS H1 H2 H3].
+        as [H|H1 H2|HS H1 H2 H3 H4|H1 H2 H3 H4 H5 H6 H7|H1 H2 H3 H4 H5 H6|HS H1 H2 H3 H4 H5|HS H1 H2 H3 H4 H5|HS H1 H2 H3 H4 H5|HS H1 H2 H3 H4 H5 H6|HS H1 H2|HS H1 H2 H3].
       - rewrite H in Hst. exact Hst.
       - rewrite H1, cancel_j_st in Hst. exact Hst.
       - rewrite H4 in Hst. cbn in Hst. destruct Hst; discriminate.
@@ -114,7 +114,7 @@ Proof.
   - (* gate *)
     intros x Hx.
     destruct (HJ x)
-      as [H|H1 H2|HS H1 H2 H3 H4|H1 H2 H3 H4 H5 H6|H1 H2 H3 H4 H5|HS H1 H2 H3 H4 H5|HS H1 H2 H3 H4 H5|HS H1 H2 H3 H4 H5|HS H1 H2 H3 H4 H5 H6|HS H1 H2|HS H1 H2 H3].
+      as [H|H1 H2|HS H1 H2 H3 H4|H1 H2 H3 H4 H5 H6 H7|H1 H2 H3 H4 H5 H6|HS H1 H2 H3 H4 H5|HS H1 H2 H3 H4 H5|HS H1 H2 H3 H4 H5|HS H1 H2 H3 H4 H5 H6|HS H1 H2|HS H1 H2 H3].
     + rewrite H in Hx. apply (all_done_stable lvl c s e s' _ W I Hs). apply (i_gate c s I). exact Hx.
     + rewrite H1, cancel_j_st in Hx.
       apply (all_done_stable lvl c s e s' _ W I Hs). apply (i_gate c s I). exact Hx.
@@ -225,7 +225,7 @@ Proof.
     unfold lk. cbn [Rn Jb setJ]. rewrite upd_same. cbn [st ran]. rewrite Hidle.
     repeat split; intros; try discriminate; try contradiction; auto. }
   destruct (J_effect lvl c s e s' W (i_pend c s I1) Hs n)
-    as [H|H1 H2|HS H1 H2 H3 H4|H1 H2 H3 H4 H5 H6|H1 H2 H3 H4 H5|HS H1 H2 H3 H4 H5|HS H1 H2 H3 H4 H5|HS H1 H2 H3 H4 H5|HS H1 H2 H3 H4 H5 H6|HS H1 H2|HS H1 H2 H3];
+    as [H|H1 H2|HS H1 H2 H3 H4|H1 H2 H3 H4 H5 H6 H7|H1 H2 H3 H4 H5 H6|HS H1 H2 H3 H4 H5|HS H1 H2 H3 H4 H5|HS H1 H2 H3 H4 H5|HS H1 H2 H3 H4 H5 H6|HS H1 H2|HS H1 H2 H3];
     try contradiction.
   - eapply lk_same; eauto; rewrite H; reflexivity.
   - eapply lk_same; eauto; rewrite H1; unfold cancel_j; destruct (finished (st (Jb s n))); reflexivity.
